@@ -27,6 +27,7 @@ inductive Var
   | argsCombinedSize
   | reqUriRaw | reqUri | reqFilename | reqBasename | queryString | reqMethod | reqLine | reqProtocol
   | reqCookies | reqCookiesNames | respHeaders | respHeadersNames
+  | env
   | unknown
 deriving Repr, DecidableEq
 
@@ -45,6 +46,7 @@ def Var.name : Var → Bytes
   | .reqLine => Bytes.ofString "REQUEST_LINE" | .reqProtocol => Bytes.ofString "REQUEST_PROTOCOL"
   | .reqCookies => Bytes.ofString "REQUEST_COOKIES" | .reqCookiesNames => Bytes.ofString "REQUEST_COOKIES_NAMES"
   | .respHeaders => Bytes.ofString "RESPONSE_HEADERS" | .respHeadersNames => Bytes.ofString "RESPONSE_HEADERS_NAMES"
+  | .env => Bytes.ofString "ENV"
   | .unknown => Bytes.ofString "UNKNOWN"
 
 structure KV where
@@ -126,6 +128,7 @@ inductive Allow | unset | phase | request | all deriving Repr, DecidableEq
 /-- non-disruptive actions with a run-time effect -/
 inductive NAct
   | setvar (key : Macro) (op : SetOp)
+  | setenv (key : Bytes) (value : Macro)  -- setenv.go:59: the transaction's ENV collection (the process environment is not read back)
   | ctlRuleEngine (m : EngineMode)
   | ctlRemoveById (id : Nat)
   | ctlRemoveByRange (lo hi : Nat)
@@ -209,6 +212,7 @@ structure Tx where
   reqHeaders : CMap := {}
   reqCookies : CMap := {}
   respHeaders : CMap := {}
+  env : CMap := {}
   txc : CMap := {}
   matchedVar : Bytes := []
   matchedVarName : Bytes := []
@@ -250,7 +254,7 @@ def keyedGet (tx : Tx) (v : Var) (key : Bytes) : Option Bytes :=
   let m : Option CMap := match v with
     | .tx => some tx.txc | .argsGet => some tx.argsGet | .argsPost => some tx.argsPost
     | .argsPath => some tx.argsPath | .reqHeaders => some tx.reqHeaders | .matchedVars => some tx.matchedVars
-    | .reqCookies => some tx.reqCookies | .respHeaders => some tx.respHeaders
+    | .reqCookies => some tx.reqCookies | .respHeaders => some tx.respHeaders | .env => some tx.env
     | _ => none
   match m with
   | some m => (m.get key).head?
@@ -286,6 +290,7 @@ def mapOf (tx : Tx) : Var → CMap
   | .reqHeaders | .reqHeadersNames => tx.reqHeaders
   | .reqCookies | .reqCookiesNames => tx.reqCookies
   | .respHeaders | .respHeadersNames => tx.respHeaders
+  | .env => tx.env
   | .tx => tx.txc
   | .matchedVars | .matchedVarsNames => tx.matchedVars
   | _ => {}
@@ -318,7 +323,7 @@ def selectRx (tx : Tx) (v : Var) (p : Bytes → Bool) : List MD :=
   | .argsNames => (findNamesRx tx.argsGet .argsNames p) ++ (findNamesRx tx.argsPost .argsNames p) ++ (findNamesRx tx.argsPath .argsNames p)
   | .argsGetNames | .argsPostNames | .reqHeadersNames | .matchedVarsNames | .reqCookiesNames | .respHeadersNames =>
     findNamesRx (mapOf tx v) v p
-  | .argsGet | .argsPost | .argsPath | .reqHeaders | .tx | .matchedVars | .reqCookies | .respHeaders => findMapRx (mapOf tx v) v p
+  | .argsGet | .argsPost | .argsPath | .reqHeaders | .tx | .matchedVars | .reqCookies | .respHeaders | .env => findMapRx (mapOf tx v) v p
   | _ => []
 
 /-- the selected entries of a target before exclusions -/
@@ -520,6 +525,7 @@ def applyParts (base modification : Bytes) : Option Bytes :=
 
 def runNAct (rules : List Rule) (tx : Tx) : NAct → Tx
   | .setvar k op => setvarEval tx (expand tx k) op
+  | .setenv k v => { tx with env := tx.env.set1 k (expand tx v) }
   | .ctlRuleEngine m => { tx with engine := m }
   | .ctlRemoveById id => { tx with rmIds := tx.rmIds ++ [id] }
   | .ctlRemoveByRange lo hi => { tx with rmRanges := tx.rmRanges ++ [(lo, hi)] }
